@@ -22,8 +22,8 @@ META = {
     "level_note": "Trusted: Coq kernel, pygen, extraction+driver, the virtual Lock/Condition/poll/clock (harness/vsched.py) standing for threading and the channel; GIL atomicity of "
                   "dict.pop, dict.__setitem__, next(itertools.count()); one model step abstracts several source lines (issue = seq+register+send).",
     "technique": "Coq inductive invariants over an unbounded-thread transition system; generated program tie; trace validation of real threads (virtual scheduler) against the extracted model",
-    "gen": ["serve"],
-    "shapes": ["serve.*", "protocol.Connection.serve", "protocol.Connection._dispatch", "protocol.Connection._seq_request_callback", "protocol.Connection._async_request",
+    "gen": ["serve", "stream", "protocol"],
+    "shapes": ["serve.*", "stream.Stream.poll", "protocol.Connection.serve", "protocol.Connection._dispatch", "protocol.Connection._dispatch_response", "protocol.Connection._seq_request_callback", "protocol.Connection._async_request",
                "protocol.Connection._get_seq_id", "protocol.Connection.sync_request", "protocol.Connection.async_request"],
     "models": ["serve"],
     "model_files": ["Serve"],
